@@ -730,7 +730,7 @@ func policyViolations(rs sourceaddrs.RemoteSource) []string {
 	}
 	// an authority-less ("opaque") URL keeps whatever stood in front of the first '/' as text:
 	// "ssh:git:pw@github.com/o/r.git" carries a user name and a password all the same
-	if first, _, _ := strings.Cut(u.Opaque, "/"); strings.Contains(first, "@") {
+	if first, _, _ := strings.Cut(strings.TrimLeft(u.Opaque, "/"), "/"); strings.Contains(first, "@") {
 		out = append(out, "userinfo-in-opaque-url")
 	}
 	q, err := url.ParseQuery(u.RawQuery)
@@ -908,6 +908,8 @@ func RunC07(tier string) int {
 	// field-by-field URLs
 	urls = append(urls, &url.URL{Scheme: "https", Host: "example.com", Path: "/r.git", User: url.UserPassword("u", "p")})
 	urlDesc = append(urlDesc, "URL{https,example.com,/r.git,User:u:p}")
+	urls = append(urls, &url.URL{Scheme: "https", Opaque: "//user:pw@example.com/foo.tgz"}, &url.URL{Scheme: "ssh", Opaque: "git@example.com/r.git"})
+	urlDesc = append(urlDesc, "URL{Opaque://user:pw@example.com/foo.tgz}", "URL{Opaque:git@example.com/r.git}")
 	urls = append(urls, &url.URL{Scheme: "https", Host: "example.com", Path: "/r.git", RawQuery: "ref=%zz"})
 	urlDesc = append(urlDesc, "URL{RawQuery:ref=%zz}")
 	urls = append(urls, &url.URL{Scheme: "https", Host: "example.com", Path: "/foo.tgz", RawQuery: "a;b"})
